@@ -1,6 +1,6 @@
 (* C06  K-means training descends the true distortion and stops by its stated rule. *)
 From Coq Require Import Reals List Lra.
-From BLE Require Import Num.InstR Model.KMeans Proofs.RLemmas Proofs.KMeansR.
+From BLE Require Import Num.InstR Model.KMeans Proofs.RLemmas Proofs.KMeansR Proofs.KMeansFit.
 Import ListNotations KR.
 Open Scope R_scope.
 
@@ -45,6 +45,21 @@ Theorem C06_iteration_chunk_independent (nf : nat) (cents B0 : list (list R)) (B
   em_iter nf (B0 :: Bs) cents = em_iter nf [concat (B0 :: Bs)] cents.
 Proof. exact (em_iter_chunk_independent nf cents B0 Bs). Qed.
 Print Assumptions C06_iteration_chunk_independent.
+
+(* the loop: at most cap iterations; the result is the n-times iterated centroid set; if it stopped before the cap the
+   relative-change rule fired at iteration n (n >= 2) and at no earlier iteration *)
+Theorem C06_fit_iterations cthr nf chunks cap cents cents' n hist :
+  fit cap cthr nf chunks cents = Some (cents', n, hist) ->
+  (n <= cap)%nat /\ iterate nf chunks n cents = Some (cents', hist) /\ length hist = n
+  /\ ((n < cap)%nat -> stops cthr hist = true)
+  /\ (forall i, (0 < i < n)%nat -> stops cthr (skipn (n - i) hist) = false).
+Proof. exact (fit_iterations cthr nf chunks cap cents cents' n hist). Qed.
+Print Assumptions C06_fit_iterations.
+
+Theorem C06_stop_rule_is_relative_change cthr cur prev rest th : cthr = Some th ->
+  (stops cthr (cur :: prev :: rest) = true <-> rel_change prev cur <= th).
+Proof. exact (stops_spec cthr cur prev rest th). Qed.
+Print Assumptions C06_stop_rule_is_relative_change.
 
 Example C06_nonvacuous : rows_ok 1 [[0]; [1]; [5]] /\ closest [[0]; [5]] [1] = 0%nat.
 Proof. split. repeat constructor. unfold closest, dists, sqdist, V.argmin; simpl. unfold V.sqr; unfold_R.
